@@ -131,11 +131,11 @@ PROPS['C07'] = dict(
 )
 PROPS['C08'] = dict(
     rules=[_r('ROLES', rk.roles, ALLF, DIRECTED), _r('TR0', rk.tr0, ALLF, DIRECTED), _r('TR1', dp.tr1, DIRECTED), _r('TR2', dp.tr2, DIRECTED), _r('TR-PAIR', dp.tr_pair, DIRECTED), _r('ENTRY-PASS', dp.entry_pass, DIRECTED), _r('CONF', dp.conf_ro, DIRECTED), _r('REV', rm.rev, DIRECTED),
-           _r('ORIENT', re_.orient, DIRECTED), _r('DISC', rk.disc, ALLF, DIRECTED, only=DISC6),
+           _r('ORIENT', re_.orient, DIRECTED), _r('IT2', rg.it2, DIRECTED), _r('IT1', rg.it1, DIRECTED), _r('DISC', rk.disc, ALLF, DIRECTED, only=DISC6),
            _r('P1', re_.p1_connect, DIRECTED), _r('P2', re_.p2_disconnect_directed, DIRECTED), _r('P3', re_.p3_isolate, DIRECTED), _r('RM1', re_.rm1_first_match, DIRECTED), _r('ADJ-PRIM', re_.adj_prim, DIRECTED)],
     explanation='Directed flavours: every kernel has a well-formed orientation signature (OUT = iter_out + item, IN = iter_in + reversed item; TR0), every entry point sends the Outbound arm '
                 'to an OUT kernel and the Inbound arm to an IN kernel (TR1, 28 arms per flavour), constructors default to Outbound and only transpose() stores Inbound (TR2), reverse '
-                'swaps endpoints and keeps the value (REV), iter_in reads the IN list and presents (peer, self) (ORIENT); the IN lists mirror the OUT lists entry for entry (P1/P2/P3/RM1 of C01), which is what makes a stored edge u->v with value e come back as Edge(v, u, e). The kernel reached under Inbound follows the same discipline as the one under Outbound (TR-PAIR: idiom-invariant facts on the outcome edges); the transposition flag is never written outside transpose() (CONF, TR2).',
+                'swaps endpoints and keeps the value (REV), iter_in reads the IN list and presents (peer, self) (ORIENT) one live entry per step under a guard released before it returns, like iter_out (IT1/IT2); the IN lists mirror the OUT lists entry for entry (P1/P2/P3/RM1 of C01), which is what makes a stored edge u->v with value e come back as Edge(v, u, e). The kernel reached under Inbound follows the same discipline as the one under Outbound (TR-PAIR: idiom-invariant facts on the outcome edges); the transposition flag is never written outside transpose() (CONF, TR2).',
     decides='dispatch tables and orientation of every kernel',
     does_not_decide='nothing beyond the per-kernel search properties C04-C10, which are checked for IN kernels exactly as for OUT kernels',
     assumptions=STD,
